@@ -19,6 +19,66 @@ def strip_caps(diag_text):
     return t
 
 # ------------------------------------------------------------------ part 2: default caps
+DEFAULT_CAP_SITE = 'site:parser/default-state_count_cap@lr1-states-exceed-situation_count'
+
+def default_cap_keys(g, diag):
+    """the recorded finding D16 covers exactly the grammars whose LR(1) automaton (states the documented conflict resolution keeps
+    reachable, counted by the reference construction) is larger than the default cap; any other rejection is new"""
+    keys = ['input:' + g.key()]
+    if 'State count exceeds the cap' in diag and ref_lr1.beyond_default_cap(g): keys.append(DEFAULT_CAP_SITE)
+    return keys
+
+BEYOND_TMPL = r'''
+#include "vf_driver.hpp"
+using namespace ctpg; using namespace ctpg::buffers; using namespace ctpg::ftors;
+%(decl)s
+int main() {
+  try { const auto& p = g0::get(); std::ostringstream d; p.write_diag_str(d); std::printf("CONSTRUCTED %%s\n", vf::hex(d.str()).c_str()); }
+  catch (const std::exception& e) { std::printf("THREW %%s\n", e.what()); }
+  std::printf("END\n"); return 0; }
+'''
+
+def beyond_cap_witnesses():
+    gs = [simple('N0->c N1; N1->N3; N1->c N2 N3; N2->N2 a c N2; N2->N0 N0; N3->N4; N4->N2 a N0 b; N4->b; N4->N0 N1 N2')]
+    return gs
+
+def beyond_cap_worker(spec):
+    """grammars whose LR(1) automaton is larger than the default state cap, constructed with default limits at compile time and at run time"""
+    out = {'counts': collections.Counter(), 'viol': [], 'samples': [], 'distinct': [], 'incon': []}
+    C = out['counts']
+    try:
+        g = Grammar.from_json(spec['grammar']); tb = ref_lr1.build(g)
+        req, allowed, cap = ref_lr1.state_need(g, tb)
+        C['evaluations'] += 1; C['grammars_needing_more_states_than_default_cap'] += (req > cap); out['distinct'].append(g.key())
+        res = {}
+        for mode in ('compile_time', 'run_time'):
+            src = BEYOND_TMPL % {'decl': eg.emit_one(g, 0, runtime_ctor=(mode == 'run_time'))}
+            try:
+                exe, _ = eg.build_tu(src, 'clang', extra=eg.mode_defines([0]), name='beyond')
+            except common.BuildError as e:
+                res[mode] = 'rejected by the compiler'
+                if mode == 'run_time' or 'ctpg.hpp' not in e.diag: out['incon'].append('beyond-cap build: ' + e.diag[:600]); continue
+                out['viol'].append((default_cap_keys(g, e.diag), 'grammar %s needs %d LR(1) states, default cap %d: constexpr construction with the default limits is rejected: %s' % (
+                    g.text(), req, cap, ' '.join(l.strip() for l in e.diag.split('\n') if 'exceeds' in l)[:200]), {'grammar': g.to_json(), 'need': req, 'cap': cap, 'diag': e.diag[:1500]}))
+                continue
+            rc, so, se, to = common.run(exe, timeout=300)
+            text = so.decode('latin-1')
+            if 'END' not in text:
+                out['viol'].append((['input:' + g.key(), 'site:construction@crash'], 'grammar %s: run-time construction crashed rc=%s %s' % (g.text(), rc, se.decode('latin-1', 'replace')[-300:]), {'grammar': g.to_json()})); continue
+            if text.startswith('THREW'):
+                res[mode] = text.split('\n')[0]
+                out['viol'].append((default_cap_keys(g, text), 'grammar %s needs %d LR(1) states, default cap %d: run-time construction with the default limits throws: %s' % (
+                    g.text(), req, cap, text.split('\n')[0][6:]), {'grammar': g.to_json(), 'need': req, 'cap': cap}))
+            else:
+                h = dg.parse_diag(bytes.fromhex(text.split()[1]).decode('latin-1')).header
+                res[mode] = 'constructed: %s states, cap %s' % (h.get('states'), h.get('state_cap'))
+                if h.get('states', 0) > h.get('state_cap', 0) or h.get('states', 0) < req:
+                    out['viol'].append((['input:' + g.key()], 'grammar %s needs %d states: constructed with %s states, cap %s' % (g.text(), req, h.get('states'), h.get('state_cap')), {'grammar': g.to_json()}))
+        out['samples'].append({'grammar': g.text(), 'reference_states_required': req, 'default_cap': cap, 'observed': res})
+    except Exception:
+        out['incon'].append('beyond-cap worker: ' + traceback.format_exc()[-1200:])
+    return out
+
 def default_caps_worker(spec):
     out = {'counts': collections.Counter(), 'viol': [], 'samples': [], 'distinct': [], 'incon': []}
     C = out['counts']
@@ -30,7 +90,7 @@ def default_caps_worker(spec):
         except common.BuildError as e:
             if len(gs) == 1:
                 g = gs[0]
-                out['viol'].append((['input:' + g.key()], 'grammar %s: construction with the default limits is rejected: %s' % (g.text(), e.diag[:400]), {'grammar': g.to_json(), 'diag': e.diag[:1500]}))
+                out['viol'].append((default_cap_keys(g, e.diag), 'grammar %s: construction with the default limits is rejected: %s' % (g.text(), e.diag[:400]), {'grammar': g.to_json(), 'diag': e.diag[:1500]}))
                 return out
             for g in gs:     # find the culprit
                 sub = default_caps_worker({'grammars': [g.to_json()]})
